@@ -17,6 +17,7 @@ def linear_valid(c, s):
 
 @contract(LIN + ":LinearController.regulate", props=["C08", "C09"])
 class linear_regulate:
+    announce = True
     params = dict(self=Linear, interval=NumFin)
     has_events = True
 
@@ -73,6 +74,7 @@ def relative_valid(c, s):
 
 @contract(REL + ":RelativeSupplyController.regulate", props=["C08", "C09"])
 class relative_regulate:
+    announce = True
     params = dict(self=Relative, interval=NumFin)
     has_events = True
 
@@ -170,6 +172,7 @@ def _real_switch():
 
 @contract(SW + ":DemandSwitch.regulate", props=["C08", "C09"])
 class switch_regulate:
+    announce = True
     params = dict(self=Switch, interval=NumFin)
     has_events = True
     witness = lambda: dict(self=_real_switch(), interval=1)
